@@ -1188,6 +1188,12 @@ func exec(op string) vlib.Res {
 			}
 		}
 		return vlib.Res{Impl: renderPrefix(p), Oracle: or}
+	case "l3 new":
+		return l3New(a)
+	case "l3 q":
+		return l3Q(a)
+	case "l3 race":
+		return l3Race(a)
 	case "pipe new":
 		return pipeNew(a)
 	case "pipe q":
